@@ -611,6 +611,50 @@ func main() {
 		fmt.Printf("VIOLATION property=%s replay=%s\n", prop, path)
 	}
 
+	// ---- free-running -race tier (runtime monitoring; DESIGN.md 2.7) ----
+	raceInfo := map[string]any{"ran": false}
+	if spec.RaceTier {
+		build(true)
+		budget := 10.0
+		if *tier == "thorough" {
+			budget = 180
+		}
+		rr := runRace(prop, seed, 0, budget)
+		raceInfo = map[string]any{"ran": true, "seconds": budget, "ops": rr.ops, "rounds": rr.rounds, "reports": 0, "note": "real goroutines under the race detector, seeded workload, unseeded schedule: monitoring, not simulation; a report is a true positive, silence proves nothing"}
+		if rr.trouble != "" {
+			trouble("race tier: %s", rr.trouble)
+		}
+		if rr.report != "" {
+			raceInfo["reports"] = 1
+			kind := "data-race"
+			if rr.panicMsg != "" {
+				kind = "crash"
+			}
+			path := filepath.Join(verifDir, "replays", fmt.Sprintf("%s-%s-race-%d.json", prop, kind, rr.index))
+			jb, _ := json.MarshalIndent(map[string]any{"property": prop, "kind": kind, "mode": "race", "verif_seed": int64(seed), "race_index": rr.index, "detail": rr.sig, "report": strings.Split(rr.report, "\n")}, "", " ")
+			os.WriteFile(path, jb, 0o644)
+			hit := ""
+			for _, f := range known {
+				if !f.fixed && f.prop == prop && f.kind == kind && (f.match == nil || f.match.MatchString(rr.sig+"\n"+rr.report)) {
+					hit = f.raw
+				}
+			}
+			reports = append(reports, map[string]any{"kind": kind, "detail": rr.sig, "replay": path, "count": 1})
+			if hit != "" {
+				fmt.Printf("KNOWN-FINDING: property=%s kind=%s %s (replay=%s)\n", prop, kind, oneLine(rr.sig), path)
+				knownHit = append(knownHit, kind)
+			} else {
+				nViol++
+				exit = 1
+				fmt.Printf("violation kind=%s (free-running -race tier, workload %d): %s\n", kind, rr.index, rr.sig)
+				for _, l := range tailLines(rr.report, 60) {
+					fmt.Printf("    %s\n", l)
+				}
+				fmt.Printf("VIOLATION property=%s replay=%s\n", prop, path)
+			}
+		}
+	}
+
 	// ---- evidence ----
 	wall := time.Since(start).Seconds()
 	samples := []any{}
@@ -646,6 +690,7 @@ func main() {
 		"stubbed_components":  spec.Stub,
 		"workers":             W,
 		"violation_reports":   reports,
+		"race_tier":           raceInfo,
 		"known_findings_hit":  knownHit,
 		"technique":           "deterministic simulation: seeded tape -> operation/schedule/fault sequence, oracle evaluated per step, delta-debugged replay files",
 	}
@@ -770,4 +815,61 @@ func oneLine(s string) string {
 
 func sanitize(s string) string {
 	return regexp.MustCompile(`[^A-Za-z0-9_-]+`).ReplaceAllString(s, "_")
+}
+
+type raceResult struct {
+	ops, rounds int
+	report      string // race report or panic text ("" = clean)
+	sig         string
+	panicMsg    string
+	index       int64
+	trouble     string
+}
+
+// runRace runs the free-running workloads of prop under the race detector for the given budget.
+func runRace(prop string, seed uint64, from uint64, budget float64) raceResult {
+	jb, _ := json.Marshal(Job{Prop: prop, Mode: "race", Seed: seed, From: from, Deadline: budget})
+	cmd := exec.Command(raceBin, "-test.run", "^TestWorker$", "-test.timeout", "0")
+	cmd.Env = append(os.Environ(), "VERIF_JOB="+string(jb), "GORACE=halt_on_error=1 exitcode=66")
+	var outb, errb strings.Builder
+	cmd.Stdout, cmd.Stderr = &outb, &errb
+	err := cmd.Run()
+	res := raceResult{index: -1}
+	for _, l := range strings.Split(outb.String(), "\n") {
+		if strings.HasPrefix(l, "@@BEGIN ") {
+			res.index, _ = strconv.ParseInt(l[8:], 10, 64)
+		}
+		if strings.HasPrefix(l, "@@RACE ") {
+			var m struct{ Ops, Rounds int }
+			json.Unmarshal([]byte(l[7:]), &m)
+			res.ops, res.rounds = m.Ops, m.Rounds
+		}
+	}
+	text := errb.String()
+	if i := strings.Index(text, "WARNING: DATA RACE"); i >= 0 {
+		res.report = text[i:]
+		// signature: the two racing accesses (function and file:line), stable across runs
+		var fr []string
+		ls := strings.Split(res.report, "\n")
+		for j, l := range ls {
+			t := strings.TrimSpace(l)
+			if (strings.HasPrefix(t, "Read at") || strings.HasPrefix(t, "Write at") || strings.HasPrefix(t, "Previous read at") || strings.HasPrefix(t, "Previous write at") || strings.HasPrefix(t, "Atomic") || strings.HasPrefix(t, "Previous atomic")) && j+2 < len(ls) {
+				loc := strings.TrimSpace(ls[j+2])
+				if k := strings.Index(loc, " +0x"); k >= 0 {
+					loc = loc[:k]
+				}
+				fr = append(fr, strings.Fields(t)[0]+" "+strings.TrimSpace(ls[j+1])+" "+loc)
+			}
+		}
+		res.sig = "data race: " + strings.Join(fr, " <-> ")
+		return res
+	}
+	if err != nil {
+		if _, msg := crashKind(text); strings.Contains(text, "panic:") || strings.Contains(text, "fatal error") {
+			res.report, res.panicMsg, res.sig = strings.Join(tailLines(text, 40), "\n"), msg, "panic in the free-running tier: "+msg
+			return res
+		}
+		res.trouble = fmt.Sprintf("race worker failed: %v\n%s", err, strings.Join(tailLines(text, 20), "\n"))
+	}
+	return res
 }
